@@ -10,7 +10,7 @@ for m in selftest/mutants/*.patch; do
   case "$m" in *"$PAT"*) ;; *) continue;; esac
   props=$(sed -n 's/^# props: //p' "$m" | head -1)
   d=$(mktemp -d /tmp/govc-mut-XXXXXX)
-  rsync -a --exclude .git /repo/ "$d/"
+  rsync -a --exclude .git "${VERIF_REPO_SRC:-/repo}/" "$d/"
   if ! (cd "$d" && patch -p1 -s < "$OLDPWD/$m"); then echo "MUTANT-BROKEN $m (patch does not apply)"; fail=1; rm -rf "$d"; continue; fi
   for p in $props; do
     n=$((n+1))
